@@ -1,7 +1,7 @@
 """C12 - coordinate transformations: variants agree, components agree, hybrid twins agree."""
 from ..core import AnalysisError, anchor
 from .. import cfront, normal
-from ..cfront import walk, render, toks, strip
+from ..cfront import walk, render, toks, strip, callee_name, strip, line_of
 from . import x1, slices, sibling
 
 # families of transformations.c: (substring of the function name) -> kinds expected to be the *same* linear map
@@ -204,7 +204,88 @@ def jump_factor(fn):
     return out
 
 
+def rule_dispatch_pairing(ctx):
+    """R12.6: wherever a coordinate system is selected by an enum constant (switch case or == test), the transformation
+    called under that constant is the one of the same system at every site: the forward map chosen in from_inertial and the
+    inverse maps chosen in to_inertial / synchronize / the kernels belong together. The system is read off the API name
+    reb_particles_transform_<A>_to_<B>_<kind>, one of A, B being `inertial`."""
+    import glob, os, re
+    from .. import core
+    from . import pathcond
+    pat = re.compile(r'^reb_particles_transform_(\w+?)_to_(\w+?)(?:_(posvel|pos|vel|acc))?$')
+    by_const = {}
+    n = 0
+    for path in sorted(glob.glob(os.path.join(core.REPO, 'src', '*.c'))):
+        cfile = os.path.basename(path)
+        if cfile == 'transformations.c':
+            continue
+        try:
+            tu = cfront.load_tu(cfile)
+        except Exception:
+            continue
+        for fname in sorted(tu.funcs):
+            fn = tu.func(fname)
+            body = cfront.body(fn)
+            if body is None:
+                continue
+            calls = [e for e in walk(body) if e.get('kind') == 'CallExpr' and pat.match(callee_name(e) or '')]
+            if not calls:
+                continue
+            pc = pathcond.conditions(fn, nodes=True)
+            label = {}
+
+            def mark(node, cur):
+                k = node.get('kind')
+                if k == 'CaseStmt':
+                    lab = [x for x in walk(node['inner'][0]) if x.get('kind') == 'DeclRefExpr' and x.get('referencedDecl', {}).get('kind') == 'EnumConstantDecl']
+                    cur = lab[0]['referencedDecl']['name'] if lab else cur
+                elif k == 'DefaultStmt':
+                    cur = None
+                if k == 'CallExpr':
+                    label[id(node)] = cur
+                for c_ in node.get('inner', []) or []:
+                    if isinstance(c_, dict):
+                        mark(c_, cur)
+            mark(body, None)
+            for e in calls:
+                m = pat.match(callee_name(e))
+                a, b = m.group(1), m.group(2)
+                system = b if a == 'inertial' else a
+                consts = set()
+                if label.get(id(e)):
+                    consts.add(label[id(e)])
+                for c_ in pc.get(id(e), []):
+                    c_ = strip(c_)
+                    if c_.get('kind') == 'BinaryOperator' and c_.get('opcode') == '==':
+                        for side in c_['inner']:
+                            side = strip(side, casts=True)
+                            if side.get('kind') == 'DeclRefExpr' and side.get('referencedDecl', {}).get('kind') == 'EnumConstantDecl' and 'COORDINATES' in side['referencedDecl']['name']:
+                                consts.add(side['referencedDecl']['name'])
+                for k_ in consts:
+                    if 'COORDINATES' not in k_:
+                        continue
+                    n += 1
+                    by_const.setdefault(k_, []).append((system, 'src/%s:%s %s' % (cfile, line_of(e), fname), callee_name(e)))
+    anchor(len(by_const) >= 4 and n >= 12, 'transformation calls selected by a coordinate-system constant')
+    for k_, uses in sorted(by_const.items()):
+        systems = {}
+        for sysname, where, callee in uses:
+            systems.setdefault(sysname, []).append((where, callee))
+        if len(systems) > 1:
+            major = max(systems, key=lambda q: len(systems[q]))
+            for sysname, ws in sorted(systems.items()):
+                if sysname == major:
+                    continue
+                for where, callee in ws:
+                    ctx.report('R12.6', '%s:%s' % (where.split(' ')[-1], k_), where,
+                               'under %s this site calls %s (system "%s"), while %d other sites use the "%s" maps under the same constant: the forward map and this inverse do not belong together'
+                               % (k_, callee, sysname, len(systems[major]), major))
+    ctx.covered('R12.6', 'transformation calls under coordinate-system constants: one system per constant at every site', n, floor=12,
+                samples=['%s -> %s (%d sites)' % (k_, sorted({u[0] for u in v}), len(v)) for k_, v in sorted(by_const.items())])
+
+
 def run(ctx):
+    rule_dispatch_pairing(ctx)
     rule_slices(ctx)
     rule_x1(ctx)
     rule_twins(ctx)
